@@ -156,7 +156,7 @@ def model_arrays(model, prefix=''):
 # data
 # ---------------------------------------------------------------------------
 
-def make_data(rng, kind, lead, K, N, D, cls='gauss', dtype=None, E=None):
+def make_data(rng, kind, lead, K, N, D, cls='gauss', dtype=None, E=None, spread=3.0):
     """Observation dict for a model kind. For integration models lead must be (F,) and N = T."""
     if kind in COMPLEX:
         dt = dtype or np.complex128
@@ -165,7 +165,7 @@ def make_data(rng, kind, lead, K, N, D, cls='gauss', dtype=None, E=None):
         return dict(y=y, lab=lab)
     if kind in REAL:
         dt = dtype or np.float64
-        y, lab = gen.planted_rmixture(rng, lead, K, N, D, dtype=dt)
+        y, lab = gen.planted_rmixture(rng, lead, K, N, D, dtype=dt, spread=spread)
         y = gen.hostile(rng, y, cls, real=True)
         return dict(y=y, lab=lab)
     # integration: same labels for both streams
@@ -173,7 +173,7 @@ def make_data(rng, kind, lead, K, N, D, cls='gauss', dtype=None, E=None):
     E = E or 3
     dt = dtype or np.complex128
     y, lab = gen.planted_cmixture(rng, lead, K, N, D, dtype=dt)
-    means = rng.standard_normal((K, E)) * 3
+    means = rng.standard_normal((K, E)) * spread
     e = means[lab] + 0.5 * rng.standard_normal((F, N, E))
     y = gen.hostile(rng, y, cls)
     return dict(y=y, e=e.astype(np.float32 if dt == np.complex64 else np.float64), lab=lab)
